@@ -1,6 +1,10 @@
 use self::world::*;
 fn walk(min: u32, max: u32, mode: TraversalMode, limit: u32, buffered: bool) -> Searcher { walk_a(min, max, mode, limit, buffered, false, false) }
 fn walk_a(min: u32, max: u32, mode: TraversalMode, limit: u32, buffered: bool, archives: bool, follow: bool) -> Searcher {
+    walk_f(min, max, mode, limit, buffered, archives, follow, true)
+}
+fn walk_f(min: u32, max: u32, mode: TraversalMode, limit: u32, buffered: bool, archives: bool, follow: bool, reset: bool) -> Searcher {
+    if reset { reset_faults(); }
     let mut s = Searcher { query: Query { limit }, found: 0, buffered, current_follow_symlinks: follow, visited_dirs: Set { seen: [false; N] }, visited_inodes: InoSet { seen: [false; N] },
                            dir_queue: Queue { items: [(0, false); N], head: 0, tail: 0 }, error_count: 0, hgignore_filters: Filters, dockerignore_filters: Filters, log: [0; 12], n: 0 };
     let r = s.visit_dir(&Path(0, false), min, max, 0, archives, false, None, false, false, mode, true);
